@@ -962,7 +962,10 @@ class VarsManager(object):
 
     @contextlib.contextmanager
     def temp_params(self, params):
-        old_params = {i: self.get(i) for i in params.keys()}
+        # stored values (val_in_fit=False): for a bounded variable get()
+        # returns the transformed fit-space value, which set_all would then
+        # write back as if it were the physical value
+        old_params = {i: self.get(i, val_in_fit=False) for i in params.keys()}
         self.set_all(params)
         try:
             yield
